@@ -503,6 +503,10 @@ class EscapeAnalysis:
         for p, d in zip(a.kwonlyargs, a.kw_defaults):
             if d is not None:
                 defaults[p.arg] = d
+        for k_ in dkeys:
+            # a declared parameter passed through a ** display is present, not defaulted
+            if k_ in pos or k_ in [x.arg for x in a.kwonlyargs]:
+                tags.setdefault(k_, ("present",))
         if not star and not dstar:
             for p in pos + [x.arg for x in a.kwonlyargs]:
                 if p not in tags:
@@ -589,7 +593,7 @@ class EscapeAnalysis:
         def val(e):
             if isinstance(e, ast.Attribute) and chain(e) in (getattr(self, "_alias", None) or {}):
                 e = ast.Name(id=self._alias[chain(e)], ctx=ast.Load())
-            if isinstance(e, ast.Name) and e.id in sh and sh[e.id][0] == "const":
+            if isinstance(e, ast.Name) and e.id in sh and sh[e.id][0] == "const" and e.id not in (getattr(self, "_rebound", None) or ()):
                 return True, sh[e.id][1]
             if isinstance(e, ast.Constant):
                 return True, e.value
@@ -651,9 +655,13 @@ class EscapeAnalysis:
         if key in self.inprogress:
             return frozenset()
         self.inprogress.add(key)
-        saved = (self.res.cur_self, getattr(self, "_alias", None))
+        saved = (self.res.cur_self, getattr(self, "_alias", None), getattr(self, "_rebound", None))
         self.res.cur_self = selfcls
         self._alias = self._self_attr_alias(fi)
+        # parameters the callee re-binds: their call-site tag says nothing about later tests
+        # (collected while the live statements are traversed in order: a store in an arm that the call shape
+        # proves dead does not count -- `if mtype is not None: _mtype = mtype` with mtype=None)
+        self._rebound = set()
         try:
             body = fi.node.body if not isinstance(fi.node, ast.Lambda) else [ast.Expr(value=fi.node.body)]
             if isinstance(fi.node, ast.Lambda):
@@ -661,7 +669,7 @@ class EscapeAnalysis:
             res = frozenset(self._block(fi, body, shape, caught=None))
         finally:
             self.inprogress.discard(key)
-            self.res.cur_self, self._alias = saved
+            self.res.cur_self, self._alias, self._rebound = saved
         self.memo[key] = res
         return res
 
@@ -749,8 +757,35 @@ class EscapeAnalysis:
                 return True
         return False
 
+    def _note_stores(self, st):
+        rb = getattr(self, "_rebound", None)
+        if rb is None:
+            return
+        heads = []
+        if isinstance(st, ast.Assign):
+            heads = list(st.targets)
+        elif isinstance(st, (ast.AugAssign, ast.AnnAssign)):
+            heads = [st.target]
+        elif isinstance(st, (ast.For, ast.AsyncFor)):
+            heads = [st.target]
+        elif isinstance(st, (ast.With, ast.AsyncWith)):
+            heads = [it.optional_vars for it in st.items if it.optional_vars is not None]
+        elif isinstance(st, ast.Delete):
+            heads = list(st.targets)
+        for h in heads:
+            for n_ in ast.walk(h):
+                if isinstance(n_, ast.Name) and isinstance(n_.ctx, (ast.Store, ast.Del)):
+                    rb.add(n_.id)
+        if isinstance(st, (ast.Expr, ast.Assign, ast.Return, ast.If, ast.While, ast.Assert)):
+            tgt = getattr(st, "value", None) or getattr(st, "test", None)
+            if tgt is not None:
+                for n_ in walk_no_nested(tgt):
+                    if isinstance(n_, ast.NamedExpr) and isinstance(n_.target, ast.Name):
+                        rb.add(n_.target.id)
+
     def _stmt(self, fi, st, shape, caught):
         out = set()
+        self._note_stores(st)
         if isinstance(st, (ast.FunctionDef, ast.AsyncFunctionDef, ast.ClassDef, ast.Pass, ast.Break, ast.Continue, ast.Global, ast.Nonlocal, ast.Import, ast.ImportFrom)):
             return out
         if isinstance(st, ast.Try):
